@@ -33,6 +33,8 @@ type Case struct {
 	// against the schema of a disagreeing case); IllPct overrides the share of queries with an ill-formed spot.
 	QSeed  uint64 `json:"qseed,omitempty"`
 	IllPct int    `json:"ill_pct,omitempty"`
+	// CrossArgs: cross-type fragment spreads may involve fields with arguments (known finding)
+	CrossArgs bool `json:"cross_args,omitempty"`
 	// Edited: the pinned query is a textual edit of another one and need not be syntactically valid
 	Edited bool `json:"edited,omitempty"`
 }
@@ -163,14 +165,21 @@ func runCase(c *Case) ([]F, map[string]interface{}) {
 	if c.Query != "" {
 		nq = 1
 	}
+	var crafted []string
+	if c.CrossArgs && c.Query == "" {
+		crafted = gqlty.CraftCrossArgs(desc, g.ArgSamples, "Query")
+		nq += len(crafted)
+	}
 	for k := 0; k < nq; k++ {
 		qr := r.Fork()
-		gen := &gqlty.QGen{R: qr, D: desc, ArgSamples: g.ArgSamples, PAlias: 12, ClashAliases: c.Clash, AliasPool: []string{"al1", "al2"}, PFrag: 15, PInline: 12, PTypename: 10}
+		gen := &gqlty.QGen{R: qr, D: desc, ArgSamples: g.ArgSamples, PAlias: 12, PCross: 30, CrossArgs: c.CrossArgs, ClashAliases: c.Clash, AliasPool: []string{"al1", "al2"}, PFrag: 15, PInline: 12, PTypename: 10}
 		if qr.Chance(illPct) {
 			gen.WantIll = qr.Pick(gqlty.IllKinds)
 		}
 		text := c.Query
-		if text == "" {
+		if text == "" && k >= nq-len(crafted) {
+			text = crafted[k-(nq-len(crafted))]
+		} else if text == "" {
 			text = gen.Document("query", "Query", 2+qr.Intn(3))
 		}
 		if len(samples) < 2 {
@@ -207,14 +216,21 @@ func runCase(c *Case) ([]F, map[string]interface{}) {
 		if term, terr := gqlty.DocToCoq(doc); terr == nil && gqlty.CoqStringSafe(text) {
 			qterms = append(qterms, fmt.Sprintf("(%s, %d)", term, code))
 		}
-		ill := gen.Ill
-		if c.Query != "" {
-			ill = ""
+		// the reference verdict comes from the introspection JSON alone, not from what the generator intended
+		ill, crossSpread := isch.Analyse(doc, "Query")
+		if gen.Cross > 0 {
+			obs["cross-type-spread"] = true
+			if ill != "" {
+				obs["ill:cross-type-spread"] = true
+			}
+		}
+		if c.Query == "" && gen.Ill != "" && ill == "" {
+			fs = append(fs, F{"harness-generator-and-reference-disagree", "generator injected " + gen.Ill + ", reference finds the query well-formed :: " + text})
 		}
 		switch {
 		case ill != "" && prep == nil:
 			fs = append(fs, F{"ill-formed-selection-accepted:" + ill, text})
-		case ill == "" && prep != nil && c.Query == "":
+		case ill == "" && prep != nil && code != 45:
 			fs = append(fs, F{"well-formed-selection-rejected", firstLine(prep.Error()) + " :: " + text})
 		}
 		if ill != "" {
@@ -235,6 +251,11 @@ func runCase(c *Case) ([]F, map[string]interface{}) {
 		clash := aliasClash(doc)
 		if xerr != nil {
 			sig := "validated-query-errors"
+			if crossSpread && (strings.Contains(text, "(") || strings.Contains(xerr.Error(), "zero Value argument")) {
+				// a fragment with argument-carrying fields under a type it was not written for: the arguments of
+				// the shared selection are parsed for the first type only
+				sig = "fragment-under-another-type-arguments-parsed-once:validated-query-errors"
+			}
 			if clash {
 				sig = "alias-shared-by-different-fields:validated-query-errors"
 			}
@@ -372,7 +393,7 @@ func main() {
 			}
 		}
 		for k := range res.Obs {
-			if strings.HasPrefix(k, "ill:") {
+			if strings.HasPrefix(k, "ill:") || k == "cross-type-spread" {
 				run.Hist(k)
 			}
 		}
